@@ -499,6 +499,15 @@ func (e *Enc) execCall(v ssa.Value, c *ssa.CallCommon, in ssa.Instruction, guard
 			e.vals[v] = Val{Tup: results}
 		}
 	}
+	if sig != nil {
+		rn := resultNames(fc, sig)
+		for i, r := range results {
+			if i < len(rn) {
+				t := sig.Results().At(i).Type()
+				e.callLog[fmt.Sprintf("call_%s_%d_%s", short, ord, rn[i])] = SV{T: r.T, Sort: e.sortOf(t), GT: t}
+			}
+		}
+	}
 	e.applyAts("call", short, in.Pos(), args, results)
 }
 
